@@ -27,6 +27,15 @@ from ._c10_util import (
     strip_wrappers, truthy,
 )
 
+def _flow(run: Run, prog: Program, fn) -> Flow:  # type: ignore[no-untyped-def]
+    """Flow of `fn`, registered (with the helpers spliced into it) as analysed."""
+    fl = Flow(prog, fn)
+    run.analysed(fl.qual)
+    for q in fl.spliced:
+        run.analysed(q)
+    return fl
+
+
 ACTOR = "actor._actor:Actor"
 BGS = "actor._background_service:BackgroundService"
 LIMIT = "self._restart_limit"
@@ -35,7 +44,7 @@ TASKS = "self._tasks"
 
 # ---------------------------------------------------------------------------------------------
 def check_run_loop(run: Run, prog: Program) -> None:
-    fl = Flow(prog, prog.func(f"{ACTOR}._run_loop"))
+    fl = _flow(run, prog, prog.func(f"{ACTOR}._run_loop"))
     fn, cfg, q = fl.fn, fl.cfg, fl.qual
     run.analysed(q)
     is_run = lambda c: method_call(c, "self", "_run")  # noqa: E731
@@ -251,7 +260,7 @@ def check_run_loop(run: Run, prog: Program) -> None:
     # (covered semantically by C10.CANCEL above through the exc:C edge)
 
     # ---- _delay_if_restart really delays for iteration > 0, and only then
-    dfl = Flow(prog, dfn)
+    dfl = _flow(run, prog, dfn)
     run.analysed(dfn.qual)
     dcfg = dfl.cfg
     param = delay_params[0]
@@ -411,7 +420,7 @@ def check_single(run: Run, prog: Program) -> None:
                           f"Actor subclass overrides {name}() — the restart supervision of "
                           "Actor._run_loop is bypassed", node=m.node, file=m.file)
     # start(): guard and registration
-    fl = Flow(prog, prog.func(f"{ACTOR}.start"))
+    fl = _flow(run, prog, prog.func(f"{ACTOR}.start"))
     st, cfg = fl.fn, fl.cfg
     run.analysed(fl.qual)
     loop_calls = some(fl.calls(lambda c: method_call(c, "self", "_run_loop")),
@@ -438,7 +447,7 @@ def check_single(run: Run, prog: Program) -> None:
                   "`if self.is_running: return` missing or bypassable)", node=n.ast, file=st.file,
                   path=fl.fmt(wit), instance=f"{fl.qual}: spawn dominated by `not is_running`")
     # is_running: any(not task.done() for task in self._tasks)
-    ifl = Flow(prog, prog.func(f"{BGS}.is_running"))
+    ifl = _flow(run, prog, prog.func(f"{BGS}.is_running"))
     run.analysed(ifl.qual)
     run.check(_is_any_not_done(ifl), "C10.SINGLE", ifl.qual, "return any(not task.done() ...)",
               "is_running is not `any(not task.done() for task in self._tasks)` — start() "
@@ -466,7 +475,7 @@ def _second_of_pair(fl: Flow, nid: int, call: ast.Call, index: int) -> str | Non
 
 def check_stop(run: Run, prog: Program) -> None:
     # cancel(): every task is cancelled
-    fl = Flow(prog, prog.func(f"{BGS}.cancel"))
+    fl = _flow(run, prog, prog.func(f"{BGS}.cancel"))
     cn, cfg = fl.fn, fl.cfg
     run.analysed(fl.qual)
     loops = [n for n in cfg.nodes if n.kind == "for" and isinstance(n.ast, ast.For)
@@ -492,7 +501,7 @@ def check_stop(run: Run, prog: Program) -> None:
               node=cn.node, file=cn.file, path=fl.fmt(wit))
 
     # stop(): cancel precedes wait; only the non-cancellation remainder is re-raised
-    fl = Flow(prog, prog.func(f"{BGS}.stop"))
+    fl = _flow(run, prog, prog.func(f"{BGS}.stop"))
     st, cfg = fl.fn, fl.cfg
     run.analysed(fl.qual)
     waits = [i for i, c in fl.calls(lambda c: method_call(c, "self", "wait")) if fl.awaited(i, c)]
@@ -566,7 +575,7 @@ def check_stop(run: Run, prog: Program) -> None:
               detail, node=st.node, file=st.file)
 
     # wait()
-    fl = Flow(prog, prog.func(f"{BGS}.wait"))
+    fl = _flow(run, prog, prog.func(f"{BGS}.wait"))
     wt, cfg = fl.fn, fl.cfg
     run.analysed(fl.qual)
     # state changes of the task set: re-binding, mutation, or any suspension point
@@ -728,7 +737,7 @@ def check_stop(run: Run, prog: Program) -> None:
                       node=wt.node, file=wt.file, path=fl.fmt(wit))
 
     # __aexit__ stops, __await__ waits
-    fl = Flow(prog, prog.func(f"{BGS}.__aexit__"))
+    fl = _flow(run, prog, prog.func(f"{BGS}.__aexit__"))
     ax, cfg = fl.fn, fl.cfg
     run.analysed(fl.qual)
     stops = [i for i, c in fl.calls(lambda c: method_call(c, "self", "stop")) if fl.awaited(i, c)]
@@ -749,7 +758,7 @@ def check_subclasses(run: Run, prog: Program) -> None:
         for name in ("stop", "cancel", "wait"):
             if name not in sub.methods:
                 continue
-            fl = Flow(prog, sub.methods[name])
+            fl = _flow(run, prog, sub.methods[name])
             m, cfg = fl.fn, fl.cfg
             run.analysed(fl.qual)
             sup = fl.calls(lambda c, n=name: is_super_call(c, n))
@@ -760,7 +769,7 @@ def check_subclasses(run: Run, prog: Program) -> None:
                       "(tasks of the service are not cancelled/awaited)", node=m.node, file=m.file,
                       path=fl.fmt(wit))
         if "start" in sub.methods:
-            fl = Flow(prog, sub.methods["start"])
+            fl = _flow(run, prog, sub.methods["start"])
             run.analysed(fl.qual)
             for nid, call in fl.calls(lambda c: callee_tail(c) == "create_task"):
                 # the created task must flow into self._tasks
@@ -787,8 +796,34 @@ def check_subclasses(run: Run, prog: Program) -> None:
                     run.violation("C10.SUPER", m.qual, node,
                                   "a subclass drops tasks from self._tasks: stop()/wait() would "
                                   "no longer cancel/await them", node=node, file=m.file)
+    # components a service starts itself (`self.<member>.start()`) are stopped by its stop(),
+    # on every normal path: their tasks are spawned on the service's behalf
+    for sub in subs:
+        owned: dict[str, tuple[str, ast.Call]] = {}
+        for m in sub.methods.values():
+            for c in find_calls(m.node, lambda c: isinstance(c.func, ast.Attribute)
+                                and c.func.attr == "start" and u(c.func.value).startswith("self.")):
+                owned.setdefault(u(c.func.value), (m.qual, c))  # type: ignore[attr-defined]
+        if not owned:
+            continue
+        stop_m = prog.resolve_method(sub, "stop")
+        if stop_m is None:
+            raise AnalysisError(f"C10.SUPER: {sub.qual} has no stop()")
+        fl = _flow(run, prog, stop_m)
+        cfg = fl.cfg
+        for member, (where, _start_call) in sorted(owned.items()):
+            stops = [i for i, c in fl.calls(
+                lambda c: isinstance(c.func, ast.Attribute) and c.func.attr == "stop")
+                if fl.text(i, c.func.value) == member  # type: ignore[attr-defined]
+                and (not stop_m.is_async or fl.awaited(i, c))]
+            wit = cfg.path(cfg.entry, [cfg.exit], avoid=stops)
+            run.check(bool(stops) and wit is None, "C10.SUPER", fl.qual, f"{member}.stop()",
+                      f"`{member}` is started by {where} but {fl.qual} has a normal path that does "
+                      "not stop it: the tasks it spawned keep running after stop() returned",
+                      node=fl.fn.node, file=fl.file, path=fl.fmt(wit),
+                      instance=f"{sub.qual}: {member} started => stopped by stop()")
     # Actor.start: the clear() is dominated by the is_running guard as well
-    fl = Flow(prog, prog.func(f"{ACTOR}.start"))
+    fl = _flow(run, prog, prog.func(f"{ACTOR}.start"))
     cfg = fl.cfg
     clears = nodes_with_call(cfg, lambda c: method_call(c, TASKS, "clear"))
     for c in clears:
@@ -807,7 +842,7 @@ def _wait_task_of(elt: ast.AST, var: str) -> bool:
 
 
 def check_run_utils(run: Run, prog: Program) -> None:
-    fl = Flow(prog, prog.func("actor._run_utils:run"))
+    fl = _flow(run, prog, prog.func("actor._run_utils:run"))
     fn, cfg, q = fl.fn, fl.cfg, fl.qual
     run.analysed(q)
     param = fn.node.args.vararg.arg if fn.node.args.vararg else None
@@ -909,6 +944,31 @@ def check_run_utils(run: Run, prog: Program) -> None:
     run.check(ok, "C10.RUN", q, f"_, {pend} = await asyncio.wait({pend}, ...)",
               "the pending set is not exactly what asyncio.wait reports as still pending",
               node=fn.node, file=fn.file)
+    # a finished waiter task is only asked for exception()/result() once it is known not to be
+    # cancelled: otherwise CancelledError escapes run() while other actors are still running
+    done_name = _second_of_pair(fl, writes[0], calls[0], 0) if ok else None
+    probes = fl.calls(lambda c: isinstance(c.func, ast.Attribute)
+                      and c.func.attr in ("exception", "result") and not c.args and not c.keywords)
+    wit = None
+    unguarded = [c for _, c in probes]
+    if done_name:
+        fl.pin(done_name)
+        for f in [n for n in cfg.nodes if n.kind == "for" and isinstance(n.ast, ast.For)
+                  and u(strip_wrappers(fl.expand(n.id, n.ast.iter))) == done_name]:
+            tv = u(f.ast.target)  # type: ignore[union-attr]
+            mine = [(i, c) for i, c in probes if u(c.func.value) == tv  # type: ignore[attr-defined]
+                    and i in cfg.reachable([m for m, lab in cfg.succ[f.id] if lab == "iter"], avoid=[f.id])]
+            unguarded = [c for c in unguarded if not any(c is c2 for _, c2 in mine)]
+            e_cancelled = fl.consistent(truthy(f"{tv}.cancelled()", True), normal=True)
+            for m, lab in cfg.succ[f.id]:
+                if lab == "iter" and wit is None and mine:
+                    wit = cfg.path(m, [i for i, _ in mine], avoid=[f.id], edge_ok=e_cancelled)
+    run.check(wit is None and not unguarded, "C10.RUN", q,
+              "task.cancelled() checked before task.exception()/result()",
+              "run() can ask a cancelled waiter task for its exception()/result(): CancelledError "
+              "would escape run() although other actors are still running", node=fn.node,
+              file=fn.file, path=fl.fmt(wit),
+              instance=f"{q}: finished tasks are inspected only when not cancelled")
     # actors that are not running get started
     fors = [n for n in cfg.nodes if n.kind == "for" and isinstance(n.ast, ast.For)
             and u(strip_wrappers(fl.expand(n.id, n.ast.iter))) == param]
@@ -951,6 +1011,10 @@ CONTROLS = [
      "except BaseException as error:", "except Exception as error:", "C10.STOP"),
     ("super().stop() skipped", "microgrid._power_distributing.power_distributing",
      "        await super().stop(msg)\n", "        pass\n", "C10.SUPER"),
+    ("cancelled() test inverted in run()", "actor._run_utils",
+     "            if task.cancelled():\n", "            if not task.cancelled():\n", "C10.RUN"),
+    ("owned component manager not stopped", "microgrid._power_distributing.power_distributing",
+     "        await self._component_manager.stop()\n", "", "C10.SUPER"),
 ]
 
 
